@@ -249,7 +249,7 @@ class URL:
                 url = f"{scheme}://{host}:{port}{path}"
 
         if query_string:
-            url = f"{url}?{query_string.decode()}"
+            url = f"{url}?{query_string.decode('latin-1')}"
 
         return url
 
